@@ -97,6 +97,7 @@ class Report:
         self.evaluations = 0
         self.tlc_runs = []
         self.known = load_known()
+        self.owns = set()     # clauses of these properties are re-attributed to this check
 
     # -- clause accounting -------------------------------------------------
     def clause(self, name, ok, key=None, what='', case=None, own=True):
@@ -125,6 +126,11 @@ class Report:
     def merge_results(self, results):
         """results: iterable of (clause, ok, key, what, case, own)"""
         for (name, ok, key, what, case, own) in results:
+            if not isinstance(own, bool):
+                prop = own
+                own = prop == self.pid or prop in self.owns
+                if not own:
+                    name = prop + '.' + name
             self.clause(name, ok, key=key, what=what, case=case, own=own)
 
     def sample(self, s, cap=4):
@@ -177,10 +183,14 @@ class Report:
             json.dump(ev, f, indent=1, default=str)
         for k in self.known_hits:
             print('KNOWN-FINDING: property=%s clause=%s key=%s %s' % (self.pid, k['clause'], k['key'], k['what']))
+        if os.environ.get('VERIF_DUMP'):
+            with open(os.environ['VERIF_DUMP'], 'w') as f:
+                for v in uniq:
+                    f.write(json.dumps({'clause': v['clause'], 'key': v['key'], 'what': v['what']}) + '\n')
         if uniq:
             os.makedirs(REPLAYS, exist_ok=True)
             for v in uniq[:10]:
-                path = os.path.join(REPLAYS, '%s-%s-%s.json' % (self.pid, v['clause'], v['key']))
+                path = os.path.join(REPLAYS, '%s-%s-%s.json' % (self.pid, v['clause'], sig_of(v['key'])))
                 with open(path, 'w') as f:
                     json.dump({'property': self.pid, 'clause': v['clause'], 'key': v['key'],
                                'what': v['what'], 'case': v['case']}, f, indent=1, default=str)
